@@ -127,12 +127,12 @@ func c18Exec(run *ev.Run, c ev.Case) {
 	prevKind := "start"
 	var trace []string
 	for step := 0; step < h.Steps; step++ {
-		kinds := []string{"dial-ok", "dial-bad", "open-ok", "open-wrongpw", "open-nosuite", "open-garbage", "sl-ok", "sl-busy-ok", "sl-lost-ok", "sl-cc"}
+		kinds := []string{"dial-ok", "dial-bad", "open-ok", "open-wrongpw", "open-nosuite", "open-garbage", "sl-ok", "sl-busy-ok", "sl-lost-ok", "sl-cc", "sl-ctx-done"}
 		if len(conns) > 0 {
 			kinds = append(kinds, "conn-close")
 		}
 		if sess != nil {
-			kinds = []string{"cmd-ok", "cmd-ok", "cmd-cc", "cmd-busy-ok", "cmd-garbage-ok", "cmd-trunc", "cmd-lost", "cmd-serfail", "cmd-nobody-ok", "close-ok", "close-fail", "sl-ok", "dial-ok", "dial-bad"}
+			kinds = []string{"cmd-ok", "cmd-ok", "cmd-cc", "cmd-busy-ok", "cmd-garbage-ok", "cmd-trunc", "cmd-lost", "cmd-serfail", "cmd-nobody-ok", "close-ok", "close-fail", "sl-ok", "dial-ok", "dial-bad", "cmd-ctx-done", "sl-cc"}
 		}
 		kind := kinds[r.Intn(len(kinds))]
 		if r.Intn(70) == 0 {
@@ -299,13 +299,42 @@ func c18Exec(run *ev.Run, c ev.Case) {
 			case "sl-lost-ok":
 				command(se.ST, &ipmi.GetSystemGUIDCmd{}, []string{"lost", "garbage:chk", "lost"}[:1+r.Intn(3)], make([]byte, 16), 16)
 			case "sl-cc":
-				command(se.ST, &ipmi.GetSystemGUIDCmd{}, []string{"cc:c1"}, make([]byte, 16), 16)
+				code := []int{0xc1, 0xd4, 0xff, 0x80, 0xfe, 0x01, r.Intn(256)}[r.Intn(7)]
+				if code == 0xc0 || code == 0xc3 || code == 0 {
+					code = 0xff
+				}
+				command(se.ST, &ipmi.GetSystemGUIDCmd{}, []string{fmt.Sprintf("cc:%02x", code)}, make([]byte, 16), 16)
 			case "cmd-ok":
 				command(sess, &ipmi.GetDeviceIDCmd{}, nil, devid, 11)
 			case "cmd-nobody-ok":
 				command(sess, &ipmi.ChassisControlCmd{Req: ipmi.ChassisControlReq{ChassisControl: ipmi.ChassisControlPowerOn}}, []string{"ccb:d5"}[:r.Intn(2)], nil, 0)
 			case "cmd-cc":
-				command(sess, &ipmi.GetDeviceIDCmd{}, []string{[]string{"cc:d4", "cc:c1", "ccb:cc"}[r.Intn(3)]}, devid, 11)
+				code := []int{0xd4, 0xc1, 0xcc, 0xff, 0x01, 0x7f, 0x80, 0xc5, 0xc9, 0xfe, r.Intn(256)}[r.Intn(11)]
+				if code == 0xc0 || code == 0xc3 || code == 0 {
+					code = 0xff
+				}
+				command(sess, &ipmi.GetDeviceIDCmd{}, []string{fmt.Sprintf("%s:%02x", []string{"cc", "ccb"}[r.Intn(2)], code)}, devid, 11)
+			case "cmd-ctx-done", "sl-ctx-done":
+				// the caller's context is already over: an attempt that fails without anything being transmitted
+				var conn bmc.Connection = se.ST
+				if kind == "cmd-ctx-done" {
+					conn = sess
+				}
+				cmd := &ipmi.GetDeviceIDCmd{}
+				ctx, cancel := context.WithCancel(context.Background())
+				cancel()
+				before := se.T.Transmissions()
+				_, err := conn.SendCommand(ctx, cmd)
+				model.add("bmc_command_attempts_total", "command="+cmd.Name(), 1)
+				if err != nil {
+					model.add("bmc_command_failures_total", "command="+cmd.Name(), 1)
+				}
+				if n := se.T.Transmissions() - before; n > 1 {
+					model.add("bmc_command_retries_total", "", float64(n-1))
+				}
+				if err == nil {
+					run.Violation("C18:harness-ctx-done", "command with a cancelled context succeeded", cs, nil)
+				}
 			case "cmd-busy-ok":
 				command(sess, &ipmi.GetChassisStatusCmd{}, []string{"busy", "tmo", "busy"}[:1+r.Intn(3)], []byte{0x21, 0x10, 0x40, 0x54}, 3)
 			case "cmd-garbage-ok":
